@@ -2,12 +2,25 @@
 //!  (save <fmt> <doc>)   -> <saveres>                         fmt ::= table | stream
 //!  (rt <fmt> <doc>)     -> (rt <saveres> <loadres> <saveres2> <loadres2>)   (later parts only while ok)
 //!  (load xBYTES)        -> <loadres>
+//!  (enc-prep <kind> xUSER xOWNER <doc>) -> (encdoc <doc'>) | (err C)     generator aid: Document::encrypt under
+//!                          kind ::= v1 | v2 | v4 | r5 (RC4 40, RC4 128, AESV2, AESV3 with revision 5; own randomness)
+//!  (rt-enc <fmt> <plain doc> <encrypted doc> xPW) -> (rt-enc <saveres> <loadres> <decres>)
+//!                          the encrypted document saved and loaded (load_mem tries the empty password and decrypts when it
+//!                          opens the file, else returns the document still encrypted); <decres> = Document::decrypt(PW) on
+//!                          what came back when that still has an Encrypt entry: (dec <doc>) | (dec-err C) | (dec-panic),
+//!                          else (nodec).
+//!                          Verdict: the loaded document is the plain document in the property's sense -- after the load
+//!                          itself when the empty password opens the file, after decrypt(PW) otherwise; when nothing was
+//!                          decrypted on load, what came back is the ENCRYPTED document in the property's sense.
 //!  <saveres> ::= (saved xBYTES <doc-after-save>) | (invalid-mark xBYTES) | (save-panic xBYTES)
 //!  <loadres> ::= (loaded <doc> table|stream) | (err <class>) | (load-panic)
 //! Verdict (save / rt): the direct evaluation of the property on the implementation for documents in
 //! the property's domain (`savable`, mirrored from coq/Spec/SaveSpec.v), `skip` outside of it.
+use lopdf::encryption::crypt_filters::*;
 use lopdf::xref::XrefType;
-use lopdf::{Dictionary, Document, Object};
+use lopdf::{Dictionary, Document, EncryptionState, EncryptionVersion, Object, Permissions};
+use std::collections::BTreeMap;
+use std::sync::Arc;
 use lvh::conv::*;
 use lvh::sx::Sx;
 use std::collections::BTreeSet;
@@ -269,10 +282,173 @@ fn verdict(doc: &Document, stream: bool, c: &Cycle) -> String {
     "ok".into()
 }
 
+// ---------- encrypted documents ----------
+#[allow(deprecated)]
+fn encrypt_doc(doc: &mut Document, kind: &str, user: &str, owner: &str) -> Result<(), lopdf::Error> {
+    let fek = [7u8; 32];
+    let state = {
+        let version = match kind {
+            "v1" => EncryptionVersion::V1 { document: doc, owner_password: owner, user_password: user, permissions: Permissions::all() },
+            "v2" => EncryptionVersion::V2 {
+                document: doc,
+                owner_password: owner,
+                user_password: user,
+                key_length: 128,
+                permissions: Permissions::all(),
+            },
+            "v4" => {
+                let mut cfs: BTreeMap<Vec<u8>, Arc<dyn CryptFilter>> = BTreeMap::new();
+                cfs.insert(b"StdCF".to_vec(), Arc::new(Aes128CryptFilter));
+                EncryptionVersion::V4 {
+                    document: doc,
+                    encrypt_metadata: true,
+                    crypt_filters: cfs,
+                    stream_filter: b"StdCF".to_vec(),
+                    string_filter: b"StdCF".to_vec(),
+                    owner_password: owner,
+                    user_password: user,
+                    permissions: Permissions::all(),
+                }
+            }
+            _ => {
+                let mut cfs: BTreeMap<Vec<u8>, Arc<dyn CryptFilter>> = BTreeMap::new();
+                cfs.insert(b"StdCF".to_vec(), Arc::new(Aes256CryptFilter));
+                EncryptionVersion::R5 {
+                    encrypt_metadata: true,
+                    crypt_filters: cfs,
+                    file_encryption_key: &fek,
+                    stream_filter: b"StdCF".to_vec(),
+                    string_filter: b"StdCF".to_vec(),
+                    owner_password: owner,
+                    user_password: user,
+                    permissions: Permissions::all(),
+                }
+            }
+        };
+        EncryptionState::try_from(version)?
+    };
+    doc.encrypt(&state)
+}
+
+/// the domain without "no Encrypt entry" (coq/Spec/SaveSpec.v savable_enc)
+fn savable_enc(doc: &Document) -> Result<(), String> {
+    let mut d = doc.clone();
+    d.trailer.remove(b"Encrypt");
+    savable(&d)
+}
+
+fn rt_enc(plain: &Document, enc: &Document, stream: bool, pw: &[u8]) -> (Sx, String) {
+    let mut d1 = enc.clone();
+    let s1 = save(&mut d1, stream);
+    let mut parts = vec![saveres_to_sx(&s1, &d1)];
+    let mut v = String::from("skip");
+    // C05's domain of Document::encrypt: no object number above max_id (add_object would overwrite it)
+    let ids_ok = if plain.objects.keys().all(|id| id.0 <= plain.max_id) { Ok(()) } else { Err("object number above max_id".to_string()) };
+    let in_domain = savable(plain).and(savable_enc(enc)).and(ids_ok);
+    if let SaveRes::Saved(b1) = &s1 {
+        let l1 = load(b1);
+        parts.push(loadres_to_sx(&l1));
+        match &l1 {
+            Ok(Ok(ld)) => {
+                let mut fin = ld.clone();
+                let mut dec_ok = true;
+                if ld.trailer.has(b"Encrypt") {
+                    let r = catch_unwind(AssertUnwindSafe(|| match std::str::from_utf8(pw) {
+                        Ok(s) => fin.decrypt(s),
+                        Err(_) => fin.decrypt_raw(pw),
+                    }));
+                    match r {
+                        Ok(Ok(())) => parts.push(Sx::tagged("dec", vec![doc_to_sx(&fin)])),
+                        Ok(Err(e)) => {
+                            dec_ok = false;
+                            parts.push(Sx::tagged("dec-err", vec![Sx::id(&err_class(&e))]))
+                        }
+                        Err(_) => {
+                            dec_ok = false;
+                            parts.push(Sx::tagged("dec-panic", vec![]))
+                        }
+                    }
+                } else {
+                    parts.push(Sx::tagged("nodec", vec![]));
+                }
+                v = match &in_domain {
+                    Err(why) => format!("skip {}", why),
+                    Ok(()) => {
+                        let kept = if ld.trailer.has(b"Encrypt") { reloaded_same(enc, ld, "encrypted document, first cycle") } else { Ok(()) };
+                        if let Err(e) = kept {
+                            format!("FAIL {}", e)
+                        } else if !dec_ok {
+                            "FAIL decrypt of the reloaded document did not succeed".into()
+                        } else if fin.trailer.has(b"Encrypt") {
+                            "FAIL Encrypt entry left after decryption".into()
+                        } else if let Err(e) = reloaded_same(plain, &fin, "encrypt, save, load, decrypt") {
+                            format!("FAIL {}", e)
+                        } else {
+                            "ok".into()
+                        }
+                    }
+                };
+            }
+            Ok(Err(e)) => {
+                if in_domain.is_ok() {
+                    v = format!("FAIL load of the saved encrypted document: {}", err_class(e));
+                }
+            }
+            Err(()) => {
+                if in_domain.is_ok() {
+                    v = "FAIL load of the saved encrypted document panicked".into();
+                }
+            }
+        }
+    } else if in_domain.is_ok() {
+        v = "FAIL save of a savable encrypted document did not succeed".into();
+    }
+    (Sx::tagged("rt-enc", parts), v)
+}
+
 fn main() {
     lvh::drive(|x| {
         let a = x.args();
         match x.tag() {
+            Some("enc-prep") => {
+                if a.len() != 4 {
+                    return (Sx::id("badcase"), "skip".into());
+                }
+                let kind = match a[0].as_atom().and_then(|k| std::str::from_utf8(k).ok()) {
+                    Some(k) => k.to_string(),
+                    None => return (Sx::id("badcase"), "skip".into()),
+                };
+                let (user, owner) = match (a[1].as_bytes(), a[2].as_bytes()) {
+                    (Some(u), Some(o)) => (String::from_utf8_lossy(&u).to_string(), String::from_utf8_lossy(&o).to_string()),
+                    _ => return (Sx::id("badcase"), "skip".into()),
+                };
+                let mut doc = match doc_of_sx(&a[3]) {
+                    Some(d) => d,
+                    None => return (Sx::id("badcase"), "skip".into()),
+                };
+                match encrypt_doc(&mut doc, &kind, &user, &owner) {
+                    Ok(()) => (Sx::tagged("encdoc", vec![doc_to_sx(&doc)]), "ok".into()),
+                    Err(e) => (Sx::tagged("err", vec![Sx::id(&err_class(&e))]), "ok".into()),
+                }
+            }
+            Some("rt-enc") => {
+                if a.len() != 4 {
+                    return (Sx::id("badcase"), "skip".into());
+                }
+                let stream = if a[0].is_id("stream") {
+                    true
+                } else if a[0].is_id("table") {
+                    false
+                } else {
+                    return (Sx::id("badcase"), "skip".into());
+                };
+                match (doc_of_sx(&a[1]), doc_of_sx(&a[2]), a[3].as_bytes()) {
+                    (Some(plain), Some(enc), Some(pw)) => rt_enc(&plain, &enc, stream, &pw),
+                    // a damaged encrypted document (no plain document given): correspondence only
+                    (None, Some(enc), Some(pw)) => (rt_enc(&enc, &enc, stream, &pw).0, "skip damaged encrypted document".into()),
+                    _ => (Sx::id("badcase"), "skip".into()),
+                }
+            }
             Some(t @ ("save" | "rt")) => {
                 if a.len() != 2 {
                     return (Sx::id("badcase"), "skip".into());
